@@ -57,31 +57,32 @@ Record rnode := {
   r_open_sched : Z;
   r_sync : Z;                          (* tN2kSyncScheduler::SyncOffset *)
   r_devinfo_changed : bool;
+  r_oob : bool;                        (* sticky: an array of the C++ (Devices[], N2kCANMsgBuf[]) was indexed outside its bounds *)
   r_clk : Z * Z                        (* RollCount and LastRead of N2kMillis64() in the 32-bit build (static locals of N2kTimer.cpp) *)
 }.
 Definition with_rn (r:rnode) (n:node) : rnode :=
   {| rn := n; rx_dev := rx_dev r; r_slots := r_slots r; r_q := r_q r; r_cfg := r_cfg r; r_open_sched := r_open_sched r; r_sync := r_sync r;
-     r_devinfo_changed := r_devinfo_changed r; r_clk := r_clk r |}.
+     r_devinfo_changed := r_devinfo_changed r; r_oob := r_oob r; r_clk := r_clk r |}.
 Definition with_slots (r:rnode) (s:list slot) : rnode :=
   {| rn := rn r; rx_dev := rx_dev r; r_slots := s; r_q := r_q r; r_cfg := r_cfg r; r_open_sched := r_open_sched r; r_sync := r_sync r;
-     r_devinfo_changed := r_devinfo_changed r; r_clk := r_clk r |}.
+     r_devinfo_changed := r_devinfo_changed r; r_oob := r_oob r; r_clk := r_clk r |}.
 Definition with_devx (r:rnode) (i:Z) (x:devx) : rnode :=
   {| rn := rn r; rx_dev := zset (rx_dev r) i x; r_slots := r_slots r; r_q := r_q r; r_cfg := r_cfg r; r_open_sched := r_open_sched r; r_sync := r_sync r;
-     r_devinfo_changed := r_devinfo_changed r; r_clk := r_clk r |}.
+     r_devinfo_changed := r_devinfo_changed r; r_oob := r_oob r; r_clk := r_clk r |}.
 Definition with_rxq (r:rnode) (q:list rxframe) : rnode :=
   {| rn := rn r; rx_dev := rx_dev r; r_slots := r_slots r; r_q := q; r_cfg := r_cfg r; r_open_sched := r_open_sched r; r_sync := r_sync r;
-     r_devinfo_changed := r_devinfo_changed r; r_clk := r_clk r |}.
+     r_devinfo_changed := r_devinfo_changed r; r_oob := r_oob r; r_clk := r_clk r |}.
 Definition with_open (r:rnode) (st:Z) (sched:Z) : rnode :=
   let n := rn r in
   {| rn := {| n_w64 := n_w64 n; n_mode := n_mode n; n_open := st; n_now := n_now n; n_pgn := n_pgn n; n_devs := n_devs n; n_q := n_q n; n_drv := n_drv n;
               n_addr_changed := n_addr_changed n |};
-     rx_dev := rx_dev r; r_slots := r_slots r; r_q := r_q r; r_cfg := r_cfg r; r_open_sched := sched; r_sync := r_sync r; r_devinfo_changed := r_devinfo_changed r; r_clk := r_clk r |}.
+     rx_dev := rx_dev r; r_slots := r_slots r; r_q := r_q r; r_cfg := r_cfg r; r_open_sched := sched; r_sync := r_sync r; r_devinfo_changed := r_devinfo_changed r; r_oob := r_oob r; r_clk := r_clk r |}.
 Definition with_sync (r:rnode) (s:Z) : rnode :=
   {| rn := rn r; rx_dev := rx_dev r; r_slots := r_slots r; r_q := r_q r; r_cfg := r_cfg r; r_open_sched := r_open_sched r; r_sync := s;
-     r_devinfo_changed := r_devinfo_changed r; r_clk := r_clk r |}.
+     r_devinfo_changed := r_devinfo_changed r; r_oob := r_oob r; r_clk := r_clk r |}.
 Definition with_devinfo_changed (r:rnode) : rnode :=
   {| rn := rn r; rx_dev := rx_dev r; r_slots := r_slots r; r_q := r_q r; r_cfg := r_cfg r; r_open_sched := r_open_sched r; r_sync := r_sync r;
-     r_devinfo_changed := true; r_clk := r_clk r |}.
+     r_devinfo_changed := true; r_oob := r_oob r; r_clk := r_clk r |}.
 Definition get_devx (r:rnode) (i:Z) : devx := znth (rx_dev r) i ddevx.
 Definition w64 (r:rnode) : bool := n_w64 (rn r).
 Definition now (r:rnode) : Z := n_now (rn r).
@@ -90,13 +91,20 @@ Definition nslots (r:rnode) : Z := Z.of_nat (length (r_slots r)).
 
 Definition with_clk (r:rnode) (c:Z*Z) : rnode :=
   {| rn := rn r; rx_dev := rx_dev r; r_slots := r_slots r; r_q := r_q r; r_cfg := r_cfg r; r_open_sched := r_open_sched r; r_sync := r_sync r;
-     r_devinfo_changed := r_devinfo_changed r; r_clk := c |}.
+     r_devinfo_changed := r_devinfo_changed r; r_oob := r_oob r; r_clk := c |}.
 (* N2kMillis64(): the 64-bit build reads the clock; the 32-bit build extends millis() with a roll counter that is only updated when called *)
 Definition millis64 (r:rnode) : rnode * Z :=
   if w64 r then (r, now r) else
   let n32 := now32 r in
   let rolls := if snd (r_clk r) >? n32 then (fst (r_clk r) + 1) mod M32 else fst (r_clk r) in
   (with_clk r (rolls, n32), rolls * M32 + n32).
+
+Definition set_oob (r:rnode) : rnode :=
+  {| rn := rn r; rx_dev := rx_dev r; r_slots := r_slots r; r_q := r_q r; r_cfg := r_cfg r; r_open_sched := r_open_sched r; r_sync := r_sync r;
+     r_devinfo_changed := r_devinfo_changed r; r_oob := true; r_clk := r_clk r |}.
+(* every use of Devices[i] / N2kCANMsgBuf[i] in the C++ corresponds to one of these checks in the model *)
+Definition chk_dev (r:rnode) (i:Z) : rnode := if (0 <=? i) && (i <? dev_count (rn r)) then r else set_oob r.
+Definition chk_slot (r:rnode) (i:Z) : rnode := if (0 <=? i) && (i <? nslots r) then r else set_oob r.
 
 Definition rsend (r:rnode) (m:msg) (idev:Z) : rnode * list event * bool :=
   let '(n', ev, ok) := send_msg (rn r) m idev in (with_rn r n', ev, ok).
@@ -121,7 +129,7 @@ Definition find_free_slot (r:rnode) (pgn src dst:Z) (tp:bool) : list slot * Z :=
   let mx := nslots r in
   let '(i, oi, ot) := ff_scan (r_slots r) pgn src dst tp 0 mx (now32 r) in
   if (i =? mx) && has_elapsed ot c_Max_N2kMsgBuf_Time (now32 r)
-  then (zset (r_slots r) oi (free_slot (znth (r_slots r) oi slot0)), oi)
+  then (zset (r_slots r) oi (free_slot (znth (r_slots r) oi slot0)), oi)      (* oi < mx: see ff_scan_oldest_range in the proofs; re-checked by chk_slot at the use *)
   else (r_slots r, i).
 
 (* ---------- ISO-TP: control messages we send ---------- *)
@@ -129,24 +137,30 @@ Definition tp_cts_packets (n:Z) : Z := Z.max 1 (Z.min n c_TP_MAX_FRAMES).
 Definition tpcm (src dst:Z) (data:list Z) : msg := {| m_pri := 6; m_pgn := c_TP_CM; m_src := src; m_dst := dst; m_data := data; m_tp := false |}.
 Definition dev_src (r:rnode) (i:Z) : Z := d_src (get_dev (rn r) i).
 Definition send_tpcm_cts (r:rnode) (pgn dst idev npackets nextp:Z) : rnode * list event :=
+  let r := chk_dev r idev in
   if negb (is_active_node (rn r)) then (r, []) else
   let '(r', ev, _) := rsend r (tpcm (dev_src r idev) dst ([c_TP_CM_CTS; tp_cts_packets npackets; u8 nextp; 255; 255] ++ le_bytes 3 pgn)) idev in (r', ev).
 Definition send_tpcm_endack (r:rnode) (pgn dst idev nbytes npackets:Z) : rnode * list event :=
+  let r := chk_dev r idev in
   if negb (is_active_node (rn r)) then (r, []) else
   let '(r', ev, _) := rsend r (tpcm (dev_src r idev) dst ([c_TP_CM_ACK] ++ le_bytes 2 nbytes ++ [npackets; 255] ++ le_bytes 3 pgn)) idev in (r', ev).
 Definition send_tpcm_abort (r:rnode) (pgn dst idev code:Z) : rnode * list event :=
+  let r := chk_dev r idev in
   if negb (is_active_node (rn r)) then (r, []) else
   let '(r', ev, _) := rsend r (tpcm (dev_src r idev) dst ([c_TP_CM_Abort; code; 255; 255; 255] ++ le_bytes 3 pgn)) idev in (r', ev).
 
 (* ---------- ISO-TP: sending side ---------- *)
 Definition set_dev_tp (r:rnode) (i:Z) (tp:option msg) (t seqn:Z) : rnode :=
+  let r := chk_dev r i in
   let d := get_dev (rn r) i in
   with_rn r (upd_dev (rn r) i (set_tp d (w64 r) tp t seqn (d_has_pending d))).
-Definition end_send_tp_r (r:rnode) (i:Z) : rnode := with_rn r (end_send_tp (rn r) i).
+Definition end_send_tp_r (r:rnode) (i:Z) : rnode :=
+  let r := chk_dev r i in with_rn r (end_send_tp (rn r) i).
 Definition has_all_dt_sent (d:dev) : bool :=
   match d_tp_msg d with Some m => d_next_dt_seq d * 7 >=? m_len m | None => d_next_dt_seq d * 7 >=? 0 end.
 (* SendTPDT *)
 Definition send_tpdt (r:rnode) (i:Z) : rnode * list event * bool :=
+  let r := chk_dev r i in
   let d := get_dev (rn r) i in
   let pdata := match d_tp_msg d with Some m => m_data m | None => [] end in
   let pdst := match d_tp_msg d with Some m => m_dst m | None => 255 end in
@@ -165,6 +179,7 @@ Fixpoint send_tpdt_burst (k:nat) (r:rnode) (i:Z) : rnode * list event * bool :=
   end.
 (* SendPendingTPMessage *)
 Definition send_pending_tp (r:rnode) (i:Z) : rnode * list event :=
+  let r := chk_dev r i in
   let d := get_dev (rn r) i in
   match d_tp_msg d with
   | Some m =>
@@ -182,7 +197,8 @@ Definition send_pending_tp (r:rnode) (i:Z) : rnode * list event :=
 (* ---------- TestHandleTPMessage ---------- *)
 Definition byte (buf:list Z) (k:nat) : Z := nth k buf 0.
 Definition le3 (buf:list Z) (k:nat) : Z := byte buf k + 256 * byte buf (k+1) + 65536 * byte buf (k+2).
-Definition set_slot (r:rnode) (i:Z) (s:slot) : rnode := with_slots r (zset (r_slots r) i s).
+Definition set_slot (r:rnode) (i:Z) (s:slot) : rnode :=
+  let r := chk_slot r i in with_slots r (zset (r_slots r) i s).
 Definition get_slot (r:rnode) (i:Z) : slot := znth (r_slots r) i slot0.
 
 (* the TP.DT search: first busy TP slot with this source and destination *)
@@ -209,6 +225,7 @@ Definition handle_tp (r:rnode) (pgn src dst len:Z) (buf:list Z) : bool * rnode *
         else (true, r1, [], mx)
       else
         let '(known, sys, _) := check_known (n_pgn (rn r1)) tpgn in
+        let r1 := chk_slot r1 idx in
         let s0 := get_slot r1 idx in
         let s1 := {| s_free := s_free s0; s_ready := s_ready s0; s_known := known; s_system := sys; s_pri := s_pri s0; s_pgn := s_pgn s0; s_src := s_src s0;
                      s_dst := s_dst s0; s_tp := s_tp s0; s_len := s_len s0; s_data := s_data s0; s_last := s_last s0; s_time := s_time s0;
@@ -253,6 +270,7 @@ Definition handle_tp (r:rnode) (pgn src dst len:Z) (buf:list Z) : bool * rnode *
   else if pgn =? c_TP_DT then
     let idx := find_tp_slot (r_slots r) src dst 0 in
     if idx <? mx then
+      let r := chk_slot r idx in
       let s := get_slot r idx in
       if s_last s + 1 =? byte buf 0 then
         let data' := copy_buf (s_data s) 1 len buf in
@@ -285,6 +303,7 @@ Fixpoint find_cont (slots:list slot) (pgn src:Z) (i:Z) : Z :=
   | s :: rest => if (s_pgn s =? pgn) && (s_src s =? src) && negb (s_tp s) then i else find_cont rest pgn src (i+1)
   end.
 Definition mark_ready (r:rnode) (idx:Z) : rnode * Z :=
+  let r := chk_slot r idx in
   let s := get_slot r idx in
   let rdy := Z.of_nat (length (s_data s)) >=? s_len s in
   (set_slot r idx {| s_free := s_free s; s_ready := rdy; s_known := s_known s; s_system := s_system s; s_pri := s_pri s; s_pgn := s_pgn s; s_src := s_src s;
@@ -324,6 +343,7 @@ Definition rx_frame (r:rnode) (f:rxframe) : rnode * list event * Z :=
 
 (* ---------- address claim ---------- *)
 Definition set_src (r:rnode) (i:Z) (src:Z) (update_end:bool) : rnode :=
+  let r := chk_dev r i in
   let d := get_dev (rn r) i in
   with_rn r (upd_dev (rn r) i {| d_src := src; d_name := d_name d; d_claim_end := (if update_end then claim_end_of src else d_claim_end d);
                                  d_claim_timer := d_claim_timer d; d_tx := d_tx d; d_cells := d_cells d; d_tp_msg := d_tp_msg d;
@@ -353,6 +373,7 @@ Fixpoint next_address (fuel:nat) (r:rnode) (i:Z) (restart:bool) : rnode :=
     else set_addr_changed (set_src r i c_N2kNullCanBusAddress false)
   end.
 Definition rstart_claim (r:rnode) (i:Z) : rnode * list event :=
+  let r := chk_dev r i in
   let '(n', ev) := start_address_claim (rn r) i in (with_rn r n', ev).
 Definition rsend_claim (r:rnode) (dst i:Z) : rnode * list event :=
   let '(n', ev) := send_iso_address_claim (rn r) dst i in (with_rn r n', ev).
@@ -361,6 +382,7 @@ Definition of_le8 (l:list Z) : Z := fold_right (fun b acc => b + 256 * acc) 0 (f
 Definition bump_instance (name:Z) : Z :=
   let inst := (name / 2^32) mod 256 in name - inst * 2^32 + ((inst + 1) mod 256) * 2^32.
 Definition set_name (r:rnode) (i:Z) (nm:Z) : rnode :=
+  let r := chk_dev r i in
   let d := get_dev (rn r) i in
   with_rn r (upd_dev (rn r) i {| d_src := d_src d; d_name := nm; d_claim_end := d_claim_end d; d_claim_timer := d_claim_timer d; d_tx := d_tx d; d_cells := d_cells d;
                                  d_tp_msg := d_tp_msg d; d_next_dt_time := d_next_dt_time d; d_next_dt_seq := d_next_dt_seq d; d_has_pending := d_has_pending d |}).
@@ -368,6 +390,7 @@ Definition set_name (r:rnode) (i:Z) (nm:Z) : rnode :=
 Definition handle_claim (r:rnode) (src:Z) (data:list Z) : rnode * list event :=
   let i := find_source_device r src in
   if (src =? c_N2kNullCanBusAddress) || (i =? -1) then (r, []) else
+  let r := chk_dev r i in
   let caller := if (8 <=? Z.of_nat (length data)) then of_le8 data else 2^64 - 1 in
   let own := d_name (get_dev (rn r) i) in
   if own <? caller then rsend_claim r 255 i
@@ -379,6 +402,7 @@ Definition handle_claim (r:rnode) (src:Z) (data:list Z) : rnode * list event :=
     else rstart_claim (next_address 300 r1 i false) i.
 (* HandleCommandedAddress (PGN 65240 delivered by ISO-TP, 9 bytes) *)
 Definition commanded_one (r:rnode) (nm newaddr i:Z) : rnode * list event :=
+  let r := chk_dev r i in
   if newaddr =? 255 then (r, []) else
   let d := get_dev (rn r) i in
   if (d_name d =? nm) && negb (d_src d =? newaddr) then
@@ -401,22 +425,26 @@ Definition handle_commanded (r:rnode) (s:slot) : rnode * list event :=
 (* ---------- ISO request ---------- *)
 Definition pend_sched (r:rnode) (src mul:Z) : Z := sched_from_now (w64 r) (now r) (187 + src * mul).
 Definition set_pending (r:rnode) (i:Z) (pc pp pf:Z) : rnode :=
+  let r := chk_dev r i in
   let x := get_devx r i in
   with_devx r i {| x_pend_claim := pc; x_pend_prod := pp; x_pend_conf := pf; x_hb := x_hb x; x_hb_seq := x_hb_seq x; x_rx := x_rx x |}.
 Definition pgn_list_msg (r:rnode) (i dst which:Z) (defaults app:list Z) : msg :=
   {| m_pri := 6; m_pgn := 126464; m_src := dev_src r i; m_dst := dst;
      m_data := which :: flat_map (le_bytes 3) (firstn (Z.to_nat c_MAX_PGNS_IN_LIST) (defaults ++ app)); m_tp := false |}.
 Definition send_product_info (r:rnode) (i:Z) : rnode * list event :=
+  let r := chk_dev r i in
   let m := {| m_pri := 6; m_pgn := 126996; m_src := dev_src r i; m_dst := 255; m_data := c_prodinfo (r_cfg r); m_tp := false |} in
   let '(r1, ev, ok) := rsend r m i in
   let x := get_devx r1 i in
   (set_pending r1 i (x_pend_claim x) (if ok then sched_disabled (w64 r1) else pend_sched r1 (dev_src r1 i) 8) (x_pend_conf x), ev).
 Definition send_config_info (r:rnode) (i:Z) : rnode * list event :=
+  let r := chk_dev r i in
   let m := {| m_pri := 6; m_pgn := 126998; m_src := dev_src r i; m_dst := 255; m_data := c_confinfo (r_cfg r); m_tp := false |} in
   let '(r1, ev, ok) := rsend r m i in
   let x := get_devx r1 i in
   (set_pending r1 i (x_pend_claim x) (x_pend_prod x) (if ok then sched_disabled (w64 r1) else pend_sched r1 (dev_src r1 i) 10), ev).
 Definition respond_iso_request (r:rnode) (requester:Z) (addressed:bool) (rpgn i:Z) : rnode * list event :=
+  let r := chk_dev r i in
   let '(n1, started) := claim_started (rn r) i in
   let r := with_rn r n1 in
   if started then (r, []) else
@@ -468,6 +496,7 @@ Definition handle_system (r:rnode) (s:slot) : rnode * list event :=
 
 (* ---------- pending information, heartbeat ---------- *)
 Definition send_pending_info_dev (r:rnode) (i:Z) : rnode * list event :=
+  let r := chk_dev r i in
   let '(r1, ev1) := send_pending_tp r i in
   let x := get_devx r1 i in
   let '(r2, ev2) :=
@@ -494,6 +523,7 @@ Definition heartbeat_msg (src period sq:Z) : msg :=
   {| m_pri := 7; m_pgn := 126993; m_src := src; m_dst := 255;
      m_data := (if period >? c_MaxHeartbeatInterval then [254; 255] else le_bytes 2 ((period / 10) mod 65536)) ++ [sq; 255; 255; 255; 255; 255]; m_tp := false |}.
 Definition send_heartbeat_dev (r:rnode) (i:Z) : rnode * list event :=
+  let r := chk_dev r i in
   let '(n1, started) := claim_started (rn r) i in
   let r := with_rn r n1 in
   if started then (r, []) else
@@ -513,7 +543,7 @@ Fixpoint send_heartbeat (k:nat) (r:rnode) (i:Z) : rnode * list event :=
   | O => (r, [])
   | S k' => let '(r1, ev1) := send_heartbeat_dev r i in let '(r2, ev2) := send_heartbeat k' r1 (i+1) in (r2, ev1 ++ ev2)
   end.
-(* SetHeartbeatIntervalAndOffset(interval, offset, iDev = -1): the loop variable [interval] is shared between devices *)
+(* SetHeartbeatIntervalAndOffset(interval, offset, iDev): special values are resolved per device (D-26 repaired) *)
 Fixpoint set_heartbeat_all (k:nat) (r:rnode) (i:Z) (interval offset:Z) : rnode :=
   match k with
   | O => r
@@ -524,7 +554,7 @@ Fixpoint set_heartbeat_all (k:nat) (r:rnode) (i:Z) (interval offset:Z) : rnode :
     if interval1 =? 0 then
       set_heartbeat_all k' (with_devx r i {| x_pend_claim := x_pend_claim x; x_pend_prod := x_pend_prod x; x_pend_conf := x_pend_conf x;
                                               x_hb := {| ss_next := ss_disabled; ss_offset := ss_offset (x_hb x); ss_period := ss_period (x_hb x) |};
-                                              x_hb_seq := x_hb_seq x; x_rx := x_rx x |}) (i+1) interval1 offset1
+                                              x_hb_seq := x_hb_seq x; x_rx := x_rx x |}) (i+1) interval offset
     else
       let interval2 := Z.max 1000 (Z.min interval1 c_MaxHeartbeatInterval) in
       let changed := negb (ss_period (x_hb x) =? interval2) || negb (ss_offset (x_hb x) =? offset1) in
@@ -534,7 +564,7 @@ Fixpoint set_heartbeat_all (k:nat) (r:rnode) (i:Z) (interval offset:Z) : rnode :
                                                           x_hb := ss_update_next t (r_sync rc) {| ss_next := ss_next (x_hb x); ss_offset := offset1; ss_period := interval2 |};
                                                           x_hb_seq := x_hb_seq x; x_rx := x_rx x |})
                 else r in
-      set_heartbeat_all k' r1 (i+1) interval2 offset1
+      set_heartbeat_all k' r1 (i+1) interval offset
   end.
 
 (* ---------- Open() and ParseMessages ---------- *)
@@ -576,6 +606,7 @@ Fixpoint rx_loop (k:nat) (r:rnode) : rnode * list event :=
       let r0 := with_rxq r rest in
       let '(r1, ev1, idx) := rx_frame r0 f in
       if idx <? nslots r1 then
+        let r1 := chk_slot r1 idx in
         let s := get_slot r1 idx in
         let '(r2, ev2) := handle_system r1 s in
         (* RunMessageHandlers sees the slot's message as it is after the system handlers ran (they do not modify it) *)
@@ -601,7 +632,7 @@ Inductive rop : Type :=
 | RBase (o:op)                         (* Tick, Accept, Send, Flush, StartClaim of part 1 *)
 | RPoll
 | RRx (f:rxframe)
-| RSetHeartbeat (interval offset:Z).   (* SetHeartbeatIntervalAndOffset(interval, offset) for all devices *)
+| RSetHeartbeat (interval offset idev:Z).   (* SetHeartbeatIntervalAndOffset(interval, offset, iDev); iDev < 0 = all devices *)
 Definition rstep (r:rnode) (o:rop) : rnode * list event :=
   match o with
   | RBase (OSend i m) =>
@@ -613,7 +644,11 @@ Definition rstep (r:rnode) (o:rop) : rnode * list event :=
   | RBase o' => let '(n', ev) := step (rn r) o' in (with_rn r n', ev)
   | RPoll => poll r
   | RRx f => (with_rxq r (r_q r ++ [f]), [])
-  | RSetHeartbeat iv off => if (iv =? 4294967295) && (off =? 65535) then (r, []) else (set_heartbeat_all (length (n_devs (rn r))) r 0 iv off, [])
+  | RSetHeartbeat iv off idev =>
+    if (iv =? 4294967295) && (off =? 65535) then (r, [])
+    else if idev <? 0 then (set_heartbeat_all (length (n_devs (rn r))) r 0 iv off, [])
+    else if idev <? dev_count (rn r) then (set_heartbeat_all 1 r idev iv off, [])
+    else (r, [])
   end.
 Fixpoint rrun (r:rnode) (ops:list rop) : rnode * list (list event) :=
   match ops with
@@ -628,7 +663,7 @@ Definition cold_devx (w:bool) (rxl:list Z) : devx :=
 Definition cold_node (w:bool) (mode t0 qmax nsl:Z) (pc:pgncfg) (devs:list dev) (rxls:list (list Z)) (cfg:rcfg) : rnode :=
   {| rn := {| n_w64 := w; n_mode := mode; n_open := 0; n_now := t0; n_pgn := pc; n_devs := devs; n_q := sring_new qmax; n_drv := []; n_addr_changed := false |};
      rx_dev := map (cold_devx w) rxls; r_slots := repeat slot0 (Z.to_nat nsl); r_q := []; r_cfg := cfg;
-     r_open_sched := sched_from_now w t0 0; r_sync := 0; r_devinfo_changed := false; r_clk := (0, 0) |}.
+     r_open_sched := sched_from_now w t0 0; r_sync := 0; r_devinfo_changed := false; r_oob := false; r_clk := (0, 0) |}.
 
 (* the harness' prelude for cases that start from an opened node: 700 x (ParseMessages; clock + 1 ms) with an accepting driver,
    heartbeat switched off unless asked for, IsAddressClaimStarted for every device, then the clock is set to the case's origin *)
@@ -638,6 +673,6 @@ Fixpoint claim_started_all (k:nat) (r:rnode) (i:Z) : rnode :=
   match k with O => r | S k' => claim_started_all k' (with_rn r (fst (claim_started (rn r) i))) (i+1) end.
 Definition prelude (r:rnode) (hb:bool) (t0:Z) : rnode :=
   let r1 := prelude_polls 700 r in
-  let r2 := if hb then r1 else fst (rstep r1 (RSetHeartbeat 0 0)) in
+  let r2 := if hb then r1 else fst (rstep r1 (RSetHeartbeat 0 0 (-1))) in
   let r3 := claim_started_all (length (n_devs (rn r2))) r2 0 in
   with_rn r3 (set_now (rn r3) t0).
